@@ -203,7 +203,7 @@ func (p *Prog) ListStep() {
 		m.Slice(l)
 	case x < 94:
 		g := p.value("")
-		if g.K == '(' || g.K == '<' || g.K == 'X' || g.K == 'w' {
+		if g.K == '(' || g.K == '<' || g.K == 'X' || g.K == 'w' || g.K == 'g' {
 			g = r.ScalarGV()
 		}
 		if n > 0 && r.Bool() {
